@@ -2,6 +2,7 @@ package rv
 
 import (
 	"go/token"
+	"strings"
 
 	"golang.org/x/tools/go/ssa"
 )
@@ -256,4 +257,50 @@ func PathConds(path []*ssa.BasicBlock) []Guard {
 		}
 	}
 	return out
+}
+
+// MustPassOrEdge reports whether every path from just after s to a return either passes an
+// instruction satisfying hit or crosses an edge accepted by goodEdge.
+func MustPassOrEdge(s Site, hit func(ssa.Instruction) bool, goodEdge func(from *ssa.BasicBlock, succ int) bool) bool {
+	seen := map[*ssa.BasicBlock]bool{}
+	var dfs func(b *ssa.BasicBlock, from int) bool // true = a bad return is reachable
+	dfs = func(b *ssa.BasicBlock, from int) bool {
+		for i := from; i < len(b.Instrs); i++ {
+			if i >= 0 && hit(b.Instrs[i]) {
+				return false
+			}
+			if _, ok := b.Instrs[i].(*ssa.Return); ok {
+				return true
+			}
+		}
+		for k, succ := range b.Succs {
+			if goodEdge != nil && goodEdge(b, k) {
+				continue
+			}
+			if seen[succ] {
+				continue
+			}
+			seen[succ] = true
+			if dfs(succ, 0) {
+				return true
+			}
+		}
+		return false
+	}
+	start := s.Idx + 1
+	return !dfs(s.Block, start)
+}
+
+// NilTestEdge returns an edge predicate accepting the edge on which `fieldSuffix` (the Desc of the
+// tested value ends with it) is nil.
+func NilTestEdge(fieldSuffix string) func(*ssa.BasicBlock, int) bool {
+	return func(from *ssa.BasicBlock, succ int) bool {
+		iff, ok := from.Instrs[len(from.Instrs)-1].(*ssa.If)
+		if !ok {
+			return false
+		}
+		g := normGuard(Guard{iff.Cond, succ == 0, from})
+		x, op, y, cok := CmpGuard(g)
+		return cok && op == token.EQL && IsNilConst(y) && strings.HasSuffix(DescDeep(x), fieldSuffix)
+	}
 }
